@@ -78,7 +78,7 @@ def native_contract_run(open_obligations=()):
 def main():
     chk = Check('C13')
     chk.native_fallback = native_contract_run
-    chk.timeout = 90 if chk.tier == 'quick' else 300
+    chk.timeout = 120 if chk.tier == 'quick' else 300
     for fn in ('mjraw_PlaneSphere', 'mjraw_SphereSphere', 'mjraw_SphereCapsule', 'c13_frame'):
         chk.unit('verif:shims/c13_prims.c', fn, prims.CONTRACTS, 'math', 'real', abspath=SHIM, check_arith=False)
     chk.unit('verif:shims/c13_prims.c', 'mjc_PlaneCapsule', prims.plane_capsule_contracts(), 'math', 'real', abspath=SHIM, check_arith=False)
